@@ -72,6 +72,18 @@ func descD(v ssa.Value, d int) string {
 	case *ssa.Call:
 		return descCall(&x.Call, d)
 	case *ssa.Extract:
+		if sel, ok := x.Tuple.(*ssa.Select); ok && x.Index >= 2 {
+			// received value of the (Index-2)th receive state
+			n := 0
+			for _, st := range sel.States {
+				if st.Dir == types.RecvOnly {
+					if n == x.Index-2 {
+						return "<-" + descD(st.Chan, d+1)
+					}
+					n++
+				}
+			}
+		}
 		return descD(x.Tuple, d+1) + fmt.Sprintf("#%d", x.Index)
 	case *ssa.Convert:
 		return descD(x.X, d+1)
@@ -128,7 +140,14 @@ func descD(v ssa.Value, d int) string {
 	case *ssa.Range:
 		return "range(" + descD(x.X, d+1) + ")"
 	case *ssa.Select:
-		return "select"
+		var parts []string
+		for i := range x.States {
+			parts = append(parts, selStateDesc(x, i, d))
+		}
+		if !x.Blocking {
+			parts = append(parts, "default")
+		}
+		return "select{" + strings.Join(parts, ";") + "}"
 	}
 	return fmt.Sprintf("%T", v)
 }
@@ -230,8 +249,32 @@ func swapOp(op token.Token) token.Token {
 	return op
 }
 
+func selStateDesc(sel *ssa.Select, i int, d int) string {
+	if i < 0 || i >= len(sel.States) {
+		return "default"
+	}
+	st := sel.States[i]
+	if st.Dir == types.SendOnly {
+		return descD(st.Chan, d+1) + "<-"
+	}
+	return "<-" + descD(st.Chan, d+1)
+}
+
 // condFacts returns the facts that hold when cond is true, and when it is false.
 func condFacts(cond ssa.Value) (tf, ff []string) {
+	if b, ok := cond.(*ssa.BinOp); ok && (b.Op == token.EQL || b.Op == token.NEQ) {
+		if ex, ok := b.X.(*ssa.Extract); ok && ex.Index == 0 {
+			if sel, ok := ex.Tuple.(*ssa.Select); ok {
+				if k, ok := b.Y.(*ssa.Const); ok {
+					s := selStateDesc(sel, int(k.Int64()), 0)
+					if b.Op == token.EQL {
+						return []string{"sel:" + s}, []string{"!sel:" + s}
+					}
+					return []string{"!sel:" + s}, []string{"sel:" + s}
+				}
+			}
+		}
+	}
 	switch x := cond.(type) {
 	case *ssa.UnOp:
 		if x.Op == token.NOT {
